@@ -76,54 +76,73 @@ def generate(repo, emit, src, func_body):
         raw = {}
         for cname, key in (('exception_try', 'exn_src_try'), ('exception_try_end', 'exn_src_try_end'),
                            ('exception_try_fail', 'exn_src_try_fail'), ('exception_throw', 'exn_src_throw'),
-                           ('exception_catch', 'exn_src_catch'), ('Exception_Buffer', 'exn_src_buffer'),
-                           ('Exception_Len', 'exn_src_len')):
+                           ('exception_catch', 'exn_src_catch')):
             raw[cname] = bodies.get(key)
-        text = exn_symex.gallina(raw)
+        helper_srcs = {}
+        for m in re.finditer(r'\bstatic\s+(?:const\s+)?[A-Za-z_][\w\s]*?[\s\*]+(\w+)\s*\(([^)]*)\)\s*\{', c):
+            hb = func_body(c, r'\b%s\s*\(%s\)\s*\{' % (re.escape(m.group(1)), re.escape(m.group(2))))
+            if hb is None: continue
+            names = [re.findall(r'\w+', prm)[-1] for prm in m.group(2).split(',') if re.findall(r'\w+', prm) and prm.strip() != 'void']
+            helper_srcs[m.group(1)] = (names, norm(hb))
+        text = exn_symex.gallina(raw, helper_srcs)
         # the module must typecheck on its own: a term Coq rejects would take all of Generated.v with it
         import tempfile, subprocess, shutil
         td = tempfile.mkdtemp(prefix='exn_tr_')
         try:
             with open(os.path.join(td, 'T.v'), 'w') as fh:
                 fh.write('From Coq Require Import List Arith NArith ZArith String Ascii.\nImport ListNotations.\n'
-                         'Local Open Scope nat_scope.\nDefinition exc_max_depth : nat := 0.\n' + text + '\n')
+                         'Local Open Scope nat_scope.\nDefinition exc_max_depth : nat := 5.\n' + text + '\n')
+            with open(os.path.join(td, 'T.v'), 'a') as fh:
+                fh.write('Import ExnTr.\nDefinition probe := CS (Some 0) 0 0 true (fun _ => 0).\n'
+                         'Compute (match tr_exception_catch (fun _ _ => true) true nil probe with CRet s _ => negb (c_active s) | _ => false end).\n'
+                         'Compute (match tr_exception_throw (fun m => m) 7 (CS None 0 0 false (fun _ => 0)) with CFormat s _ => match c_obj s with None => true | Some _ => false end | _ => false end).\n'
+                         'Compute (match tr_exception_try 1 (CS (Some 0) 0 0 false (fun _ => 0)) with CRet s _ => match c_obj s with Some _ => true | None => false end | _ => false end).\n')
             r = subprocess.run(['coqc', 'T.v'], cwd=td, stdout=subprocess.PIPE, stderr=subprocess.STDOUT, timeout=120, text=True)
             if r.returncode != 0:
                 raise exn_symex.Untranslatable('translated module does not typecheck: ' + r.stdout[-300:].replace('\n', ' '))
+            flags = re.findall(r'=\s*(true|false)\s*:\s*bool', r.stdout)
+            if len(flags) != 3:
+                raise exn_symex.Untranslatable('probe output: ' + r.stdout[-200:])
         finally:
             shutil.rmtree(td, ignore_errors=True)
+        for name, val, what in (('clear_active_on_catch', flags[0], 'exception_catch on a pending exception with an empty filter leaves active clear'),
+                                ('throw_records_obj_after_format', flags[1], 'exception_throw has not stored the object yet when it formats the message'),
+                                ('try_keeps_obj', flags[2], 'exception_try leaves e->obj alone')):
+            emit(name, 'Definition %s : bool := %s.   (* read off the translation on a probe state: %s = %s *)' % (name, val, what, val))
         emit('exn_translation', text)
     except Exception as ex:          # outside the fragment: no definition = broken obligation
         emit('exn_translation', None)
+        for name in ('clear_active_on_catch', 'throw_records_obj_after_format', 'try_keeps_obj'):
+            emit(name, None)
         print('exn_translation: %s' % ex)
 
-    cb = bodies.get('exn_src_catch')
-    if cb is None:
-        emit('clear_active_on_catch', None)
-    else:
-        nret = len(re.findall(r'return e -> obj ;', cb))
-        ncl = len(re.findall(r'e -> active = false ; return e -> obj ;', cb))
-        if nret == 2 and ncl == 2:
-            emit('clear_active_on_catch', 'Definition clear_active_on_catch : bool := true.   (* source: e->active = false; before both return e->obj; *)')
-        elif nret == 2 and ncl == 0 and 'active = false' not in cb:
-            emit('clear_active_on_catch', 'Definition clear_active_on_catch : bool := false.   (* source: exception_catch never clears e->active *)')
-        else:
-            emit('clear_active_on_catch', None)
-        bodies['exn_src_catch'] = cb.replace('e -> active = false ; return e -> obj ;', 'return e -> obj ;')
-    tb = bodies.get('exn_src_throw')
-    if tb is None:
-        emit('throw_records_obj_after_format', None)
-    else:
-        io, ip = tb.find('e -> obj = obj ;'), tb.find('print_to_with (')
-        ok = io >= 0 and ip >= 0 and tb.count('e -> obj =') == 1 and tb.count('print_to_with (') == 1
-        emit('throw_records_obj_after_format', None if not ok else
-             'Definition throw_records_obj_after_format : bool := %s.   (* source: e->obj = obj; %s print_to_with(e->msg, ..) *)'
-             % (('true', 'after') if io > ip else ('false', 'before')))
-        bodies['exn_src_throw'] = tb.replace('e -> obj = obj ; ', '', 1)      # its position is the flag above
-    yb = bodies.get('exn_src_try')
-    emit('try_keeps_obj', None if yb is None else
-         'Definition try_keeps_obj : bool := %s.   (* source: exception_try %s e->obj *)'
-         % (('false', 'mentions') if re.search(r'-> obj\b', yb) else ('true', 'does not mention')))
+    # the token shapes of the translated functions are no longer obligations; the flags of the machine are
+    # READ OFF the translation by running it on probe states (see the translation block above): the tie
+    # theorems of ExnTie.v then check the whole transformer against the model at these flags
+    for k in ('exn_src_try', 'exn_src_try_end', 'exn_src_try_fail', 'exn_src_throw', 'exn_src_catch',
+              'exn_src_buffer', 'exn_src_len'):
+        bodies.pop(k, None)
+    # Exception_Error: a sequence of output calls (print_to / fprintf / fflush / Exception_Backtrace) that
+    # reports "Uncaught <obj>" and the message on stderr and then leaves through exit(EXIT_FAILURE) —
+    # checked on the parsed statements, not on the text (flushing a stream more is the same function)
+    eb = bodies.pop('exn_src_error', None)
+    ok = False
+    try:
+        import exn_symex
+        sts = exn_symex.Parser(eb).block()[1] if eb else []
+        calls = [s[1] for s in sts if s[0] == 'expr' and s[1][0] == 'call']
+        on_stderr = lambda c: c[2] and c[2][0] == ('call', '$', [('id', 'File'), ('id', 'stderr')])
+        is_e = lambda x, f: x == ('field', ('id', 'e'), f)
+        ok = (len(calls) == len(sts) and len(sts) >= 2
+              and all(c[1] in ('print_to', 'fprintf', 'fflush', 'Exception_Backtrace', 'exit') for c in calls)
+              and calls[-1] == ('call', 'exit', [('id', 'EXIT_FAILURE')])
+              and sum(1 for c in calls if c[1] == 'exit') == 1
+              and any(c[1] == 'print_to' and on_stderr(c) and len(c[2]) == 4 and c[2][2][0] == 'str'
+                      and 'Uncaught %$' in c[2][2][1] and is_e(c[2][3], 'obj') for c in calls)
+              and any(c[1] == 'print_to' and on_stderr(c) and len(c[2]) == 4 and is_e(c[2][3], 'msg') for c in calls))
+    except Exception:
+        ok = False
+    emit('exn_error_reports_and_exits', 'Definition exn_error_reports_and_exits : bool := true.   (* source: Exception_Error prints "Uncaught %$" with e->obj and the message to stderr, then exit(EXIT_FAILURE) *)' if ok else None)
     for coq, t in bodies.items():
         emit(coq, None if t is None else 'Definition %s : string := %s%%string.' % (coq, coq_string(t)))
 
